@@ -1,5 +1,6 @@
 import Driver.D23
 import Driver.D29
+import Driver.D31
 /-
 `model`: reads one case per line (`stream<TAB>field…`), prints the model's canonical answer.
 Imports model files only (no Mathlib), so it links as a native executable.
@@ -12,6 +13,7 @@ def dispatch (line : String) : String :=
   | stream :: fs =>
     if stream ∈ ["assignable", "usage", "implfield"] then c29 stream fs
     else if stream ∈ ["coord", "lookup"] then c23 stream fs
+    else if stream ∈ ["pack", "alloc"] then c31 stream fs
     else "unknown-stream"
 
 partial def loop (h : IO.FS.Stream) (out : IO.FS.Stream) : IO Unit := do
